@@ -148,6 +148,8 @@ def make_case(rng, i, tier):
     gb = {json.dumps(_bytes_of(x)) for x in gx[:40]}
     gbss = [json.loads(e) for e in gb][:25]
     gbss += [bs[:-1] for bs in gbss[:6] if len(bs) > 1]
+    if any(r[1] == "Yz" for r in g["rules"]):
+        gbss += [_bytes_of(["Yz", t]) for t in gterms] + [_bytes_of(["Yz"])]      # the NAME of the dead nonterminal spelled in bytes
     # merged: all concatenations of short encodings of both
     x1 = gen.all_strings(a["syms"], 2)
     x2 = gen.all_strings(a2["syms"], 1)
